@@ -78,6 +78,7 @@ var (
 	switches  int
 	deadlock  bool
 	inSetup   bool // Run is re-initialising the program's packages
+	jumps     int  // time jumps in this run
 	activity  int  // counts everything the running task does that the simulator sees (steps, events, operations begun)
 )
 
@@ -99,7 +100,7 @@ func resetTasks() {
 	schedX = uint64(cfg.SchedSeed)*0x9E3779B97F4A7C15 + 0xD1B54A32D192ED03
 	nextSw = 0
 	timers = nil
-	timerSeq, taskSeq, switches = 0, 0, 0
+	timerSeq, taskSeq, switches, jumps = 0, 0, 0, 0
 	conds = nil
 	wgCount = map[*sync.WaitGroup]int{}
 	onceState = map[*sync.Once]int{}
@@ -336,6 +337,17 @@ func advanceTime() bool {
 	if next > now {
 		clockMs += next - now
 		record("JUMP", "", next-now)
+	}
+	// a program in which nothing but timers ever happens again (the main task waits for
+	// something that never comes while a ticker keeps ticking) would jump forever
+	jumps++
+	if jumps > 100000 {
+		if !budgetHit {
+			budgetHit = true
+			record("BUDGET", "time jumps", int64(jumps))
+		}
+		endRunFrom(cur)
+		runtime.Goexit()
 	}
 	fireDue()
 	epoch++
